@@ -391,9 +391,10 @@ func cnRun(cs cnCase) *cnResult {
 			k = fmt.Sprint(keys[key])
 		}
 		rec.seq++
+		seq := rec.seq
 		rec.events = append(rec.events, cnEvent{Seq: rec.seq, Kind: "hook:" + kind, ID: id, Key: k, Go: goid()})
 		rec.mu.Unlock()
-		if r2 := rec.seq % 5; r2 == 0 {
+		if r2 := seq % 5; r2 == 0 {
 			runtime.Gosched()
 		}
 	}
